@@ -77,11 +77,24 @@ theorem PubsSim.to0 {w w' : World} (h : PubsSim w w') : PubsSim0 w w' :=
   ⟨fun q P hq => by obtain ⟨P', a, b⟩ := h.fwd q P hq; exact ⟨P', a, b.to0⟩,
    fun q P' hq => by obtain ⟨P, a, b⟩ := h.bwd q P' hq; exact ⟨P, a, b.to0⟩⟩
 
+/-- weakest similarity: liveness and registry slot -/
+structure PubSim00 (P P' : Pub) : Prop where
+  alive : P'.alive = P.alive
+  slot : P'.slot = P.slot
+
+structure PubsSim00 (w w' : World) : Prop where
+  fwd : ∀ q P, getP w q = some P → ∃ P', getP w' q = some P' ∧ PubSim00 P P'
+  bwd : ∀ q P', getP w' q = some P' → ∃ P, getP w q = some P ∧ PubSim00 P P'
+
+theorem PubsSim0.to00 {w w' : World} (h : PubsSim0 w w') : PubsSim00 w w' :=
+  ⟨fun q P hq => by obtain ⟨P', a, b⟩ := h.fwd q P hq; exact ⟨P', a, ⟨b.alive, b.slot⟩⟩,
+   fun q P' hq => by obtain ⟨P, a, b⟩ := h.bwd q P' hq; exact ⟨P, a, ⟨b.alive, b.slot⟩⟩⟩
+
 /-! ### registries -/
 
 theorem RInv.transferP {cfg : Cfg} {w w' : World} {xp xs : Option Nat} (h : RInv cfg w xp xs)
     (hcfg : w'.cfg = w.cfg) (hpr : w'.pubReg = w.pubReg) (hsr : w'.subReg = w.subReg)
-    (hS : ∀ s, getS w' s = getS w s) (hP : PubsSim0 w w') : RInv cfg w' xp xs := by
+    (hS : ∀ s, getS w' s = getS w s) (hP : PubsSim00 w w') : RInv cfg w' xp xs := by
   refine ⟨hcfg.trans h.cfgEq, by rw [hpr]; exact h.pubLen, by rw [hsr]; exact h.subLen, ?_, ?_, ?_, ?_⟩
   · intro i p hi
     rw [hpr] at hi
@@ -147,7 +160,7 @@ theorem ConnInv.transferP {cfg : Cfg} {w w' : World} {p s : Nat} {c : Conn} (h :
 /-! ### subscribers -/
 
 theorem SubOK.transferP {cfg : Cfg} {w w' : World} {s : Nat} {S : Sub} {hole : Option Nat}
-    (h : SubOK cfg w s S hole) (hP : PubsSim0 w w')
+    (h : SubOK cfg w s S hole) (hP : PubsSim00 w w')
     (hC : ∀ p c, getC w p s = some c → c.rAtt = true → ∃ c', getC w' p s = some c' ∧ c'.rAtt = true) :
     SubOK cfg w' s S hole := by
   refine ⟨h.stI, h.connsLen, h.capEq, h.buf1, h.bufM, h.tbrNodup, h.tbrLen, h.tbrIn, h.connKey, h.connInj,
